@@ -321,6 +321,7 @@ def random_histories(ctx: Ctx, n: int) -> None:
         dup = r.random() < 0.15
         policy = r.choice(["DEFAULT", "DEFAULT", "ALLOW_UNKNOWN", "ALLOW_ANY"])
         p_miss, p_fa, p_sw, p_swap, p_far, p_lab = r.choice([0, 0.1, 0.3]), r.choice([0, 0.1, 0.3]), r.choice([0, 0.05, 0.3]), r.choice([0, 0.05, 0.2]), r.choice([0, 0.1, 0.4]), r.choice([0, 0.1, 0.3])
+        p_odd = r.choice([0, 0, 0.1, 0.3])
         trk = {i: f"T{i}" for i in range(n_obj)}
         nxt = 100
         history: List[List[Tuple]] = [[]] if r.random() < 0.6 else []
@@ -335,6 +336,10 @@ def random_histories(ctx: Ctx, n: int) -> None:
                     nxt += 1
                     trk[i] = f"T{nxt}"
                 if r.random() < p_miss:
+                    continue
+                if r.random() < p_odd:
+                    # pairing that is never evaluated for this label: FP-labelled or other-label ground truth
+                    fr.append(dict(e=trk[i], g=f"X{i}", ok=r.random() < 0.5, el="car", gl=r.choice(["false_positive", "truck"])))
                     continue
                 fr.append(dict(e=trk[i], g=f"G{i}", ok=r.random() >= p_far, el=r.choice(["pedestrian", "unknown"]) if r.random() < p_lab else "car", gl="car"))
             for j in range(3):
